@@ -71,6 +71,11 @@ func warmUp() {
 		for _, id := range []tls.ClientHelloID{tls.HelloChrome_120, tls.HelloFirefox_105, tls.HelloIOS_14} {
 			runHostile(hostileOpts{ID: id, Reads: 1})
 		}
+		for alg := 1; alg <= 3; alg++ {
+			for _, mib := range []int{8, 32, 64} {
+				bombBody(alg, mib)
+			}
+		}
 	})
 }
 
@@ -289,6 +294,77 @@ func compressWith(alg int, data []byte) []byte {
 	return b.Bytes()
 }
 
+// bombBody returns (cached) the compression of mib MiB of zeros: a few dozen bytes to a few KiB that
+// inflate far beyond any certificate (decompression bomb). Built by streaming, outside any measured window.
+var (
+	bombMu    sync.Mutex
+	bombCache = map[[2]int][]byte{}
+)
+
+func bombBody(alg, mib int) []byte {
+	bombMu.Lock()
+	defer bombMu.Unlock()
+	if b, ok := bombCache[[2]int{alg, mib}]; ok {
+		return b
+	}
+	var b bytes.Buffer
+	var w io.WriteCloser
+	switch alg {
+	case 1:
+		w = zlib.NewWriter(&b)
+	case 2:
+		w = brotli.NewWriterLevel(&b, 5)
+	case 3:
+		zw, _ := zstd.NewWriter(&b, zstd.WithEncoderConcurrency(1), zstd.WithWindowSize(1<<20))
+		w = zw
+	default:
+		return nil
+	}
+	chunk := make([]byte, 1<<20)
+	for i := 0; i < mib; i++ {
+		w.Write(chunk)
+	}
+	w.Close()
+	out := append([]byte(nil), b.Bytes()...)
+	bombCache[[2]int{alg, mib}] = out
+	return out
+}
+
+// certBombBody: compression of prefix followed by 32 MiB of zeros (cached per algorithm and prefix length).
+func certBombBody(alg int, prefix []byte) []byte {
+	bombMu.Lock()
+	defer bombMu.Unlock()
+	key := [2]int{alg + 100, len(prefix)}
+	if b, ok := bombCache[key]; ok && len(prefix) == len(bombPrefix[key]) && bytes.Equal(prefix, bombPrefix[key]) {
+		return b
+	}
+	var b bytes.Buffer
+	var w io.WriteCloser
+	switch alg {
+	case 1:
+		w = zlib.NewWriter(&b)
+	case 2:
+		w = brotli.NewWriterLevel(&b, 5)
+	case 3:
+		zw, _ := zstd.NewWriter(&b, zstd.WithEncoderConcurrency(1), zstd.WithWindowSize(1<<20))
+		w = zw
+	default:
+		return prefix
+	}
+	w.Write(prefix)
+	chunk := make([]byte, 1<<20)
+	for i := 0; i < 32; i++ {
+		w.Write(chunk)
+	}
+	w.Close()
+	out := append([]byte(nil), b.Bytes()...)
+	bombCache[key] = out
+	bombPrefix[key] = append([]byte(nil), prefix...)
+	return out
+}
+
+var bombPrefix = map[[2]int][]byte{}
+
 // certBody13 is a plausible TLS 1.3 Certificate message body: empty context, one entry.
 func certBody13(der []byte) []byte {
 	return cat([]byte{0}, bVec24(cat(bVec24(der), bU16(0))))
@@ -301,6 +377,13 @@ func genDecomp(r *Rng, i int, tier string) string {
 	content := Pick(r, []string{"cert", "cert", "cert", "zeros:1000", "zeros:300000", "zeros:70000", "rand:200", "empty"})
 	decl := Pick(r, []string{"exact", "exact", "exact", "minus1", "plus1", "zero", "limit", "limit1", "huge", "huge", "max"})
 	body := Pick(r, []string{"good", "good", "good", "good", "trunc", "garbage", "empty", "flip"})
+	if i%4 == 3 { // decompression bombs: tiny body, huge inflated size, small valid declared length
+		alg = Pick(r, []int{1, 2, 3})
+		adv = Pick(r, []string{"1,2,3", "1,2,3", strconv.Itoa(alg)})
+		content = fmt.Sprintf("bomb:%d", Pick(r, []int{8, 32, 64}))
+		decl = Pick(r, []string{"small", "small", "zero", "limit", "cert"})
+		body = "good"
+	}
 	return fmt.Sprintf("alg=%d adv=%s content=%s decl=%s body=%s salt=%d", alg, adv, content, decl, body, r.Intn(1000))
 }
 
@@ -323,7 +406,12 @@ func decompInputs(in KV) (alg int, adv []tls.CertCompressionAlgo, decl uint32, b
 	case "empty":
 	}
 	plainLen = len(plain)
-	body = compressWith(alg, plain)
+	if name == "bomb" {
+		plainLen = n << 20
+		body = bombBody(alg, n)
+	} else {
+		body = compressWith(alg, plain)
+	}
 	salt := in.Int("salt")
 	switch in["body"] {
 	case "trunc":
@@ -342,7 +430,11 @@ func decompInputs(in KV) (alg int, adv []tls.CertCompressionAlgo, decl uint32, b
 	}
 	switch in["decl"] {
 	case "exact":
-		decl = uint32(len(plain))
+		decl = uint32(plainLen)
+	case "small":
+		decl = 1500
+	case "cert":
+		decl = 483
 	case "minus1":
 		if len(plain) > 0 {
 			decl = uint32(len(plain) - 1)
@@ -395,7 +487,10 @@ func execDecomp(in KV) string {
 	if rs := splitRecords(wrote); len(rs) > 0 && len(rs[0].Payload) == 2 {
 		al = fmt.Sprint(rs[0].Payload[1])
 	}
-	return fmt.Sprintf("out=%s res=%s n=%d alert=%s decl=%d plain=%d alloc=%s allocge=%d", ifs(errText == "", "ok", "err"), res, n, al, decl, plainLen, allocClass(alloc),
+	if os.Getenv("VERIF_ALLOC_DEBUG") != "" {
+		fmt.Fprintf(os.Stderr, "decomp alg=%d content=%s decl=%d alloc=%d\n", alg, in["content"], decl, alloc)
+	}
+	return fmt.Sprintf("out=%s res=%s n=%d alert=%s decl=%d plain=%d alloc=%s alloc8=%d allocge=%d", ifs(errText == "", "ok", "err"), res, n, al, decl, plainLen, allocClass(alloc), bi(alloc >= 8<<20),
 		bi(alloc >= uint64(decl)))
 }
 
@@ -488,6 +583,13 @@ func structuredMutation(msg []byte, mut string, salt int) ([]byte, bool) {
 			body[salt%len(body)] ^= 0x55
 		case "other": // compresses something that is not a certificate message
 			body = compressWith(alg, payload(100))
+		case "bomb8", "bomb32", "bomb64": // tiny body inflating to 8-64 MiB of zeros (cached, built outside the measured window)
+			mib, _ := strconv.Atoi(kv["body"][4:])
+			if b := bombBody(alg, mib); b != nil {
+				body = b
+			}
+		case "certbomb": // the real certificate message followed by 32 MiB of zeros, in one stream
+			body = certBombBody(alg, plain)
 		}
 		decl := len(plain)
 		switch kv["decl"] {
@@ -503,6 +605,8 @@ func structuredMutation(msg []byte, mut string, salt int) ([]byte, bool) {
 			decl = 8<<20 + salt*4096
 		case "max":
 			decl = 0xffffff
+		case "small":
+			decl = 1500
 		}
 		return hsMsg(25, cat(bU16(alg), bU24(decl), bVec24(body))), true
 	case "tkt":
@@ -571,6 +675,9 @@ func genStructured(r *Rng, id tls.ClientHelloID) (target string, mut string) {
 		alg := Pick(r, []int{1, 2, 3, 2, 2, 0, 4})
 		if adv := advertisedCompAlgs(id); len(adv) > 0 && r.Intn(4) != 0 {
 			alg = Pick(r, adv)
+		}
+		if r.Intn(4) == 0 { // decompression bombs with small, valid declared lengths
+			return "11", fmt.Sprintf("cc:%d:%s:%s", alg, Pick(r, []string{"small", "small", "exact", "zero"}), Pick(r, []string{"bomb8", "bomb32", "bomb64", "certbomb"}))
 		}
 		return "11", fmt.Sprintf("cc:%d:%s:%s", alg,
 			Pick(r, []string{"exact", "exact", "exact", "minus1", "plus1", "zero", "limit1", "huge", "max"}),
